@@ -216,6 +216,42 @@ def eval_bool(test, asg):
     return asg[k]
 
 
+def inline_tail_calls(fnode, resolve, depth=2):
+    """Copy of a predicate-like function in which every  `return h(<names>)`  whose callee `resolve(call)` yields (FunctionDef, {param: argument name}) is replaced
+    by the callee's body with its parameters renamed (a tail call: the callee's returns are the caller's returns).  The callee's locals must not clash with the
+    caller's names.  Used before decision_table so that a predicate split over helper methods is read as one."""
+    import copy as _copy
+    fnode = _copy.deepcopy(fnode)
+    caller_names = {n.id for n in ast.walk(fnode) if isinstance(n, ast.Name)} | {a.arg for a in fnode.args.args}
+
+    def expand(stmts, d):
+        out = []
+        for st in stmts:
+            if isinstance(st, ast.Return) and isinstance(st.value, ast.Call) and d < depth:
+                r = resolve(st.value)
+                if r is not None:
+                    h, binding = r
+                    hl = {n.id for n in ast.walk(h) if isinstance(n, ast.Name) and isinstance(n.ctx, ast.Store)}
+                    if not (hl & caller_names) and not (hl & set(binding)):
+                        class T(ast.NodeTransformer):
+                            def visit_Name(self, n):
+                                if n.id in binding:
+                                    return ast.copy_location(ast.Name(id=binding[n.id], ctx=n.ctx), n)
+                                return n
+                        body = [T().visit(_copy.deepcopy(x)) for x in h.body]
+                        if body and isinstance(body[0], ast.Expr) and isinstance(body[0].value, ast.Constant):
+                            body = body[1:]
+                        out += expand(body, d + 1)
+                        continue
+            if isinstance(st, ast.If):
+                st.body = expand(st.body, d)
+                st.orelse = expand(st.orelse, d)
+            out.append(st)
+        return out
+    fnode.body = expand(fnode.body, 0)
+    return ast.fix_missing_locations(fnode)
+
+
 def decision_table(fnode):
     """For a predicate-like function (assignments of boolean expressions to locals, if, return) return (atoms, table) where table maps each truth
     assignment (tuple of bools in atom order) to ("const", value).  The function body is INTERPRETED for every assignment: locals hold the boolean they were
@@ -261,6 +297,8 @@ def decision_table(fnode):
         for a in bool_atoms(expr):
             if isinstance(a, ast.Name) and a.id in local_names:
                 continue
+            if any(isinstance(x, ast.Name) and x.id in local_names for x in ast.walk(a)):
+                raise AnalysisIncomplete(f"comparison {norm(a)[:60]} reads a local that is assigned more than once (its value depends on the path)")
             if isinstance(a, ast.Constant):
                 continue
             if norm(a) not in [norm(x) for x in atoms]:
